@@ -181,6 +181,20 @@ class Speed(Case):
                             v["nt"] = n + 1
                             v["t"] = st[: n + 1]
                         yield v
+        if self.params["lens"] == "same":
+            # thresholds exactly at, and one float next to, the real speed of a hop (unit time steps, so the
+            # speed is the geodesic length itself): the boundary of each comparison becomes replayable
+            import math
+
+            from pyvc import libmodels
+
+            tracks = [[(0, 0), (10, 20)], [(10, 20), (10, 20.5), (0, 0)], [(0, 80), (0, 81), (1, 81)]]
+            for tr in tracks:
+                for h in range(1, len(tr)):
+                    d = libmodels.concrete_geod(tr[h - 1][1], tr[h - 1][0], tr[h][1], tr[h][0])
+                    lo_, hi_ = math.nextafter(d, 0.0), math.nextafter(d, math.inf)
+                    for sus, fail in ((d, 2 * d), (d / 2, d), (lo_, 2 * d), (d / 4, lo_), (d / 2, hi_), (hi_, 2 * d), (d, d), (d, d / 2)):
+                        yield {"n": len(tr), "lon": [p[0] for p in tr], "lat": [p[1] for p in tr], "t": list(range(len(tr))), "sus": sus, "fail": fail, "keep": 1}
 
 
 def cases():
